@@ -123,63 +123,91 @@ int splinetable_write_key(struct splinetable* table, splinetable_dtype type,
 }
 	
 uint32_t splinetable_ndim(const struct splinetable* table){
+	if(!table || !table->data)
+		return(0);
 	const auto& real_table=*static_cast<const photospline::splinetable<>*>(table->data);
 	return(real_table.get_ndim());
 }
 uint32_t splinetable_order(const struct splinetable* table, uint32_t dim){
+	if(!table || !table->data)
+		return(0);
 	const auto& real_table=*static_cast<const photospline::splinetable<>*>(table->data);
 	return(real_table.get_order(dim));
 }
 uint64_t splinetable_nknots(const struct splinetable* table, uint32_t dim){
+	if(!table || !table->data)
+		return(0);
 	const auto& real_table=*static_cast<const photospline::splinetable<>*>(table->data);
 	return(real_table.get_nknots(dim));
 }
 const double* splinetable_knots(const struct splinetable* table, uint32_t dim){
+	if(!table || !table->data)
+		return(NULL);
 	const auto& real_table=*static_cast<const photospline::splinetable<>*>(table->data);
 	return(real_table.get_knots(dim));
 }
 double splinetable_knot(const struct splinetable* table, uint32_t dim,
                         uint64_t knot){
+	if(!table || !table->data)
+		return(std::numeric_limits<double>::quiet_NaN());
 	const auto& real_table=*static_cast<const photospline::splinetable<>*>(table->data);
 	return(real_table.get_knot(dim,knot));
 }
 double splinetable_lower_extent(const struct splinetable* table, uint32_t dim){
+	if(!table || !table->data)
+		return(std::numeric_limits<double>::quiet_NaN());
 	const auto& real_table=*static_cast<photospline::splinetable<>*>(table->data);
 	return(real_table.lower_extent(dim));
 }
 double splinetable_upper_extent(const struct splinetable* table, uint32_t dim){
+	if(!table || !table->data)
+		return(std::numeric_limits<double>::quiet_NaN());
 	const auto& real_table=*static_cast<const photospline::splinetable<>*>(table->data);
 	return(real_table.upper_extent(dim));
 }
 double splinetable_period(const struct splinetable* table, uint32_t dim){
+	if(!table || !table->data)
+		return(std::numeric_limits<double>::quiet_NaN());
 	const auto& real_table=*static_cast<const photospline::splinetable<>*>(table->data);
 	return(real_table.get_period(dim));
 }
 uint64_t splinetable_ncoeffs(const struct splinetable* table, uint32_t dim){
+	if(!table || !table->data)
+		return(0);
 	const auto& real_table=*static_cast<const photospline::splinetable<>*>(table->data);
 	return(real_table.get_ncoeffs(dim));
 }
 uint64_t splinetable_total_ncoeffs(const struct splinetable* table){
+	if(!table || !table->data)
+		return(0);
 	const auto& real_table=*static_cast<const photospline::splinetable<>*>(table->data);
 	return(real_table.get_ncoeffs());
 }
 uint64_t splinetable_stride(const struct splinetable* table, uint32_t dim){
+	if(!table || !table->data)
+		return(0);
 	const auto& real_table=*static_cast<const photospline::splinetable<>*>(table->data);
 	return(real_table.get_stride(dim));
 }
 const float* splinetable_coefficients(const struct splinetable* table){
+	if(!table || !table->data)
+		return(NULL);
 	const auto& real_table=*static_cast<const photospline::splinetable<>*>(table->data);
 	return(real_table.get_coefficients());
 }
 	
 int tablesearchcenters(const struct splinetable* table, const double* x,
                        int* centers){
+	if(!table || !table->data)
+		return(0);
 	const auto& real_table=*static_cast<const photospline::splinetable<>*>(table->data);
 	return(real_table.searchcenters(x,centers));
 }
 	
 double ndsplineeval(const struct splinetable* table, const double* x,
                     const int* centers, int derivatives){
+	if(!table || !table->data)
+		return(std::numeric_limits<double>::quiet_NaN());
 	const auto& real_table=*static_cast<const photospline::splinetable<>*>(table->data);
 	return(real_table.ndsplineeval(x,centers,derivatives));
 }
@@ -187,13 +215,18 @@ double ndsplineeval(const struct splinetable* table, const double* x,
 //ndsplineeval_gradient has no return value with which to report a failure:
 //mark every requested output as not-a-number instead
 static void gradient_failed(const struct splinetable* table, double* evaluates){
-	const auto& real_table=*static_cast<const photospline::splinetable<>*>(table->data);
-	for(uint32_t i=0; i<=real_table.get_ndim(); i++)
+	//a handle without a table has no dimensions: only the value slot exists
+	uint32_t ndim=splinetable_ndim(table);
+	for(uint32_t i=0; i<=ndim; i++)
 		evaluates[i]=std::numeric_limits<double>::quiet_NaN();
 }
 
 void ndsplineeval_gradient(const struct splinetable* table, const double* x,
                            const int* centers, double* evaluates){
+	if(!table || !table->data){
+		gradient_failed(table,evaluates);
+		return;
+	}
 	try{
 		const auto& real_table=*static_cast<const photospline::splinetable<>*>(table->data);
 		real_table.ndsplineeval_gradient(x,centers,evaluates);
@@ -209,6 +242,8 @@ void ndsplineeval_gradient(const struct splinetable* table, const double* x,
 	
 double ndsplineeval_deriv(const struct splinetable* table, const double* x,
                            const int* centers, const unsigned int *derivatives){
+	if(!table || !table->data)
+		return(std::numeric_limits<double>::quiet_NaN());
 	const auto& real_table=*static_cast<const photospline::splinetable<>*>(table->data);
 	return(real_table.ndsplineeval_deriv(x,centers,derivatives));
 }
